@@ -510,23 +510,25 @@ def ob_native():
 
 
 @obligation("native/whitening_distinct_eigenvalues", kind="bounded",
-            desc="calc_whitening_matrix on Hermitian positive definite covariances with distinct eigenvalues (sizes 1..8): W^H R W == I (1e-8)")
+            desc="calc_whitening_matrix on Hermitian positive definite covariances with distinct eigenvalues (sizes 1..8, absolute scales 1e-16 .. 1e6): W^H R W == I (1e-8)")
 def ob_whiten_ok():
     import pyphysim.util.misc as misc
     r = stable_rng("C20white")
 
     def gen():
         for i in range(100 if quick() else 1000):
-            yield {"seed": int(r.randint(1 << 30)), "n": int(1 + i % 8)}
+            yield {"seed": int(r.randint(1 << 30)), "n": int(1 + i % 8), "scale": [1.0, 1e-9, 1e-13, 1e6, 1e-16, 1e-11][(i // 8) % 6]}
 
     def check(case):
         rr = np.random.RandomState(case["seed"])
         n = case["n"]
         X = _rand_c(rr, n, n + 3)
         R = X @ X.conj().T / (n + 3) + 0.05 * np.eye(n)
+        # covariances in physical units (interference plus noise in Watt: -60 ... -130 dBm) are as positive definite as unit-scale ones
+        R = R * case.get("scale", 1.0)
         W = misc.calc_whitening_matrix(R)
         e = np.abs(W.conj().T @ R @ W - np.eye(n)).max()
-        return {"|W^H R W - I|": float(e), "n": n} if (not (e <= 1e-8)) else None
+        return {"|W^H R W - I|": float(e), "n": n, "scale of the covariance": case.get("scale", 1.0)} if (not (e <= 1e-8)) else None
     return bounded(gen(), check)
 
 
@@ -558,6 +560,60 @@ def ob_lrsv_wide():
             return {"raised IndexError": str(e)[:80]}
         return None
     return bounded([{"n": 1}, {"n": 0}], check)
+
+
+@obligation("conversions/representation_independent", kind="exhaustive",
+            desc="the proofs treat the argument of a conversion as a number: on the real code the result must not depend on how the number "
+                 "is stored - every value of a fixed set as Python int, numpy scalar and array of every integer type that can hold it "
+                 "(uint8..uint64, int8..int64), float32/float64: dB2Linear, dBm2Linear, linear2dB, linear2dBm, SNR_dB_to_EbN0_dB, "
+                 "EbN0_dB_to_SNR_dB give the float64 result (1e-12 relative; 1e-6 for float32) and the round trips return the value")
+def ob_conv_representation():
+    import pyphysim.util.conversion as cv
+    values = [0, 1, 3, 10, 23, 29, 30, 31, 60, 100, 127, -1, -30, -98, -100, -128, 200, 255, 1000, 2500]
+    dtypes = [np.uint8, np.uint16, np.uint32, np.uint64, np.int8, np.int16, np.int32, np.int64, np.float32, np.float64]
+
+    def cases():
+        for v in values:
+            for dt in dtypes:
+                if np.issubdtype(dt, np.integer):
+                    info = np.iinfo(dt)
+                    if not (info.min <= v <= info.max):
+                        continue
+                if dt is np.float32 and abs(v) > 300:
+                    continue          # float32 operands are computed in float32 (10^30 is representable, 10^100 is not)
+                for form in ("scalar", "array", "0d"):
+                    yield {"value": v, "dtype": np.dtype(dt).name, "form": form}
+            yield {"value": v, "dtype": "python int", "form": "scalar"}
+
+    def check(case):
+        v = case["value"]
+        if case["dtype"] == "python int":
+            x = int(v)
+        else:
+            dt = np.dtype(case["dtype"]).type
+            x = dt(v) if case["form"] == "scalar" else (np.array([v, v], dtype=dt) if case["form"] == "array" else np.array(v, dtype=dt))
+        tol = 1e-6 if case["dtype"] == "float32" else 1e-12
+        f = float(v)
+        with np.errstate(all="ignore"):
+            for name, fn, ref in (("dB2Linear", cv.dB2Linear, 10 ** (f / 10)), ("dBm2Linear", cv.dBm2Linear, 10 ** (f / 10) / 1000),
+                                  ("SNR_dB_to_EbN0_dB", lambda z: cv.SNR_dB_to_EbN0_dB(z, 4), f - 10 * math.log10(4)),
+                                  ("EbN0_dB_to_SNR_dB", lambda z: cv.EbN0_dB_to_SNR_dB(z, 4), f + 10 * math.log10(4))):
+                got = np.asarray(fn(x), dtype=float).ravel()
+                if ref > 1e300 or (not np.all(np.abs(got - ref) <= tol * max(abs(ref), 1e-300) + (tol if "EbN0" in name or "SNR" in name else 0))):
+                    if ref > 1e300:
+                        continue
+                    return {name: got.tolist()[:2], "expected": ref, "argument stored as": case["dtype"], "form": case["form"], "value": v}
+            if v > 0:
+                for name, fn, ref in (("linear2dB", cv.linear2dB, 10 * math.log10(f)), ("linear2dBm", cv.linear2dBm, 10 * math.log10(f) + 30)):
+                    got = np.asarray(fn(x), dtype=float).ravel()
+                    if not np.all(np.abs(got - ref) <= tol * max(abs(ref), 1.0)):
+                        return {name: got.tolist()[:2], "expected": ref, "argument stored as": case["dtype"], "form": case["form"], "value": v}
+            if abs(f) <= 300:
+                back = np.asarray(cv.linear2dBm(cv.dBm2Linear(x)), dtype=float).ravel()
+                if not np.all(np.abs(back - f) <= 1e-9 * max(1.0, abs(f)) + (1e-4 if case["dtype"] == "float32" else 0)):
+                    return {"linear2dBm(dBm2Linear(x))": back.tolist()[:2], "x": v, "argument stored as": case["dtype"], "form": case["form"]}
+        return None
+    return exhaustive(cases(), check)
 
 
 @obligation("native/conversions_float", kind="bounded",
